@@ -1,57 +1,117 @@
 import Driver.Asm
 import Driver.Schema
 import IpldModel.Model.TypedAssembler
+import IpldModel.Model.ReprAssembler
 namespace Ipld.Driver
 open Ipld Ipld.Asm
 
 /-!
-  Line protocol of the typed-assembler machine (`Model/TypedAssembler.lean`):
+  Line protocol of the typed-assembler machines (`Model/TypedAssembler.lean`: type level; `Model/ReprAssembler.lean`:
+  representation level):
 
-      tasm.run [<engine>] <ty…> OPS <ops…>    →  <out…> | built <tl-term>   /   <out…> | unfinished
-                                                  unsupported                 (the type is outside `TAsm.plain`)
+      tasm.run [<engine>] [<level>] <ty…> OPS <calls…>  →  <out…> | built <tl-term>   /   <out…> | unfinished
+                                                           unsupported      (the type is outside the machine's fragment)
 
-  engine = ideal | bindnode | gen (default bindnode); types as in Driver/Schema.lean, ops as in `asm.run`.
-  Outcomes as `asm.run` prints them.  Once a refused `AssignNode` has been left half done (`Engine.anPartial`)
-  the model makes no claim: the next call is printed as `unclaimed`, nothing after it, and the result is `unclaimed`.
+  engine = ideal | bindnode | gen (default bindnode); level = type | repr (default type); types as in Driver/Schema.lean;
+  calls: the ops of `asm.run`, and `R` (`Reset()` on the root builder).  One outcome per call, as `asm.run` prints them, and
+
+      reset       the answer to `R`
+      skipped     a call after one that panicked, up to the next `R` (nothing is claimed about it; the harness does not make
+                  it).  Where no `R` follows, the line ends at the `panic` and the result is `unfinished`.
+      unclaimed   a call in a state a refused `AssignNode` left half done (`Engine.anPartial`): no claim about its answer, up
+                  to the next `R`; the result is `unclaimed` if the history ends in that state.
 -/
 
-def parseTEngine : String → Option TAsm.Engine
-  | "ideal" => some TAsm.Engine.ideal
-  | "bindnode" => some TAsm.Engine.bindnode
-  | "gen" => some TAsm.Engine.gen
+def parseTEngine : String → Option (TAsm.Engine × RAsm.Engine)
+  | "ideal" => some (TAsm.Engine.ideal, RAsm.Engine.ideal)
+  | "bindnode" => some (TAsm.Engine.bindnode, RAsm.Engine.bindnode)
+  | "gen" => some (TAsm.Engine.gen, RAsm.Engine.gen)
   | _ => none
 
-/-- like `TAsm.run`, printing `unclaimed` where the model stops making claims -/
-def tasmRun (e : TAsm.Engine) : TAsm.St → List Op → TAsm.St × List String
-  | st, [] => (st, [])
-  | st, op :: ops =>
-    if st.tainted then (st, ["unclaimed"]) else
-    match TAsm.step e st op with
-    | (st', .panic) => (st', ["panic"])
-    | (st', o) =>
-      let (st'', os) := tasmRun e st' ops
-      (st'', showOut o :: os)
+/-- the calls: `parseOps` segments separated by `R` tokens -/
+def parseCalls (toks : List String) : Option (List TAsm.Call) :=
+  let rec split (acc : List String) (segs : List (List String)) : List String → List (List String)
+    | [] => (acc.reverse :: segs).reverse
+    | "R" :: rest => split [] (acc.reverse :: segs) rest
+    | t :: rest => split (t :: acc) segs rest
+  let segs := split [] [] toks
+  let rec join : List (List String) → Option (List TAsm.Call)
+    | [] => some []
+    | [s] => (parseOps (s.length + 1) s).map fun ops => ops.map .op
+    | s :: rest =>
+      match parseOps (s.length + 1) s, join rest with
+      | some ops, some cs => some (ops.map .op ++ (.reset :: cs))
+      | _, _ => none
+  join segs
+
+/-- A machine as the printer sees it. -/
+structure Machine (σ : Type) where
+  step : σ → Op → σ × Out
+  reset : σ → σ
+  tainted : σ → Bool
+
+/-- `skip`: a call panicked and no reset has come since -/
+def runPrinted {σ : Type} (m : Machine σ) : Bool → σ → List TAsm.Call → σ × Bool × List String
+  | skip, st, [] => (st, skip, [])
+  | _, st, .reset :: cs =>
+    let (st', sk, os) := runPrinted m false (m.reset st) cs
+    (st', sk, "reset" :: os)
+  | true, st, .op _ :: cs =>
+    if TAsm.hasReset cs then
+      let (st', sk, os) := runPrinted m true st cs
+      (st', sk, "skipped" :: os)
+    else (st, true, [])
+  | false, st, .op o :: cs =>
+    if m.tainted st then
+      if TAsm.hasReset cs then
+        let (st', sk, os) := runPrinted m false st cs
+        (st', sk, "unclaimed" :: os)
+      else (st, false, ["unclaimed"])
+    else
+      match m.step st o with
+      | (st', .panic) =>
+        let (st'', sk, os) := runPrinted m true st' cs
+        (st'', sk, "panic" :: os)
+      | (st', out) =>
+        let (st'', sk, os) := runPrinted m false st' cs
+        (st'', sk, showOut out :: os)
 
 def tasmHandler : List String → Option String
   | "tasm.run" :: toks =>
     let (e, toks) := match toks with
       | t :: rest => match parseTEngine t with
         | some e => (e, rest)
-        | none => (TAsm.Engine.bindnode, toks)
-      | [] => (TAsm.Engine.bindnode, toks)
+        | none => ((TAsm.Engine.bindnode, RAsm.Engine.bindnode), toks)
+      | [] => ((TAsm.Engine.bindnode, RAsm.Engine.bindnode), toks)
+    let (repr, toks) := match toks with
+      | "type" :: rest => (false, rest)
+      | "repr" :: rest => (true, rest)
+      | _ => (false, toks)
     match parseTyFuel (toks.length + 1) toks with
     | some (ty, "OPS" :: rest) =>
-      if !TAsm.plain ty then some "unsupported" else
-      match parseOps (rest.length + 1) rest with
-      | some ops =>
-        let (st, outs) := tasmRun e (TAsm.init ty) ops
-        let fin :=
-          if st.tainted then "unclaimed" else
-          match TAsm.build st with
-          | some v => "built " ++ TL.toTerm v
-          | none => "unfinished"
-        some (" ".intercalate outs ++ " | " ++ fin)
+      match parseCalls rest with
       | none => some "bad-ops"
+      | some calls =>
+        if repr then
+          if !RAsm.plainR ty then some "unsupported" else
+          let m : Machine RAsm.St := { step := RAsm.step e.2, reset := fun s => RAsm.init s.ty, tainted := (·.tainted) }
+          let (st, skip, outs) := runPrinted m false (RAsm.init ty) calls
+          let fin :=
+            if skip then "unfinished" else if st.tainted then "unclaimed" else
+            match RAsm.build st with
+            | some v => "built " ++ TL.toTerm v
+            | none => "unfinished"
+          some (" ".intercalate outs ++ " | " ++ fin)
+        else
+          if !TAsm.plain ty then some "unsupported" else
+          let m : Machine TAsm.St := { step := TAsm.step e.1, reset := fun s => TAsm.init s.ty, tainted := (·.tainted) }
+          let (st, skip, outs) := runPrinted m false (TAsm.init ty) calls
+          let fin :=
+            if skip then "unfinished" else if st.tainted then "unclaimed" else
+            match TAsm.build st with
+            | some v => "built " ++ TL.toTerm v
+            | none => "unfinished"
+          some (" ".intercalate outs ++ " | " ++ fin)
     | _ => some "bad-type"
   | _ => none
 
